@@ -564,4 +564,61 @@ theorem hello_suite_offered (mode : Mode) (e : Bool) (v w s : Nat) (suites comps
     obtain ⟨rfl, h1, h2, h3⟩ := answerOn_serverHello _ _ _ _ _ _ _ h
     exact ⟨h1, h3, Or.inr ⟨rfl, h2⟩⟩
 
+-- the client's check of a ServerHello ----------------------------------------------------------------------------
+
+/-- the version test of the two clients, all values at once: GMSSL exactly 0x0101; TLS 1.0 and anything above
+    (values above 0x0303 are taken as TLS 1.2 by `mutualVersion`) -/
+theorem clientVersionOk_iff (gm : Bool) (v : Nat) :
+    clientVersionOk gm v = true ↔ (if gm = true then v = 0x0101 else 0x0301 ≤ v) := by
+  cases gm
+  · simp only [clientVersionOk, Bool.false_eq_true, if_false]
+    rcases ranges v with h | h | ⟨h1, h2⟩ | ⟨h1, h2⟩ | h
+    · rw [mv_low v h]; simp; omega
+    · subst h; decide
+    · rw [mv_gap v h1 h2]; simp; omega
+    · rw [mv_tls v h1 h2]; simp
+    · rw [mv_high v h]; simp; omega
+  · simp [clientVersionOk, versionGMSSL]
+
+/-- T1 `client_accepts_hello_iff`: a client goes on after a ServerHello exactly when the version is the one it
+    speaks, the suite is one it offered and knows, and the compression method is null. -/
+theorem client_accepts_hello_iff (gm : Bool) (offered : List Nat) (v s comp : Nat) :
+    clientHelloCheck gm offered v s comp = .accept ↔
+      (if gm = true then v = 0x0101 else 0x0301 ≤ v) ∧ s ∈ offered ∧ s ∈ knownSuites gm ∧ comp = 0 := by
+  rw [← clientVersionOk_iff]
+  unfold clientHelloCheck
+  by_cases h1 : clientVersionOk gm v = true
+  · by_cases h2 : s ∈ offered
+    · by_cases h3 : s ∈ knownSuites gm
+      · by_cases h4 : comp = 0 <;> simp [h1, h2, h3, h4]
+      · simp [h1, h2, h3]
+    · simp [h1, h2]
+  · simp [h1]
+
+/-- … and otherwise aborts at once, with the alert of the first failing test: protocol_version, then
+    handshake_failure ("server chose an unconfigured cipher suite"), then unexpected_message -/
+theorem client_rejects_hello (gm : Bool) (offered : List Nat) (v s comp : Nat) :
+    (clientVersionOk gm v = false → clientHelloCheck gm offered v s comp = .reject .protocolVersion) ∧
+    (clientVersionOk gm v = true → (s ∉ offered ∨ s ∉ knownSuites gm) →
+        clientHelloCheck gm offered v s comp = .reject .handshakeFailure) ∧
+    (clientVersionOk gm v = true → s ∈ offered → s ∈ knownSuites gm → comp ≠ 0 →
+        clientHelloCheck gm offered v s comp = .reject .unexpectedMessage) := by
+  refine ⟨fun h => by simp [clientHelloCheck, h], fun h hs => ?_, fun h h1 h2 h3 => ?_⟩
+  · unfold clientHelloCheck
+    rcases hs with hs | hs <;> simp [h, hs]
+  · simp [clientHelloCheck, h, h1, h2, h3]
+
+/-- in particular a suite the client did not put into its own hello is never accepted, however well known -/
+theorem client_never_accepts_unoffered (gm : Bool) (configured : List Nat) (v s comp : Nat)
+    (h : s ∉ configured) : clientHelloCheck gm (helloSuites gm configured) v s comp ≠ .accept := by
+  intro ha
+  have := ((client_accepts_hello_iff gm _ v s comp).mp ha).2.1
+  simp only [helloSuites, List.mem_filter] at this
+  exact h this.1
+
+example : clientHelloCheck true (helloSuites true [0xe053]) 0x0101 0xe013 0 = .reject .handshakeFailure := by decide
+example : clientHelloCheck true (helloSuites true [0xe053]) 0x0101 0xe053 0 = .accept := by decide
+example : clientHelloCheck false (helloSuites false [0xc02f, 0x009c]) 0x0304 0x009c 0 = .accept := by decide
+example : clientHelloCheck false (helloSuites false [0xc02f, 0xffff]) 0x0303 0xffff 0 = .reject .handshakeFailure := by decide
+
 end Props.C15
